@@ -160,9 +160,17 @@ fn history(cap: Option<usize>, ops: &[Op]) -> Res {
                     }
                     Some(r) => {
                         let a = r as *const u64 as usize;
-                        match first_call.get(&a) {
-                            Some(c) => line.push_str(&format!(" {c}")),
-                            None => line.push_str(" ?"),
+                        // with several distinct elements stored under this hash, WHICH of them a lookup
+                        // by hash meets first depends on the slot layout, which no property fixes: then
+                        // only "one of them" (A) is compared (the oracle below checks it is one of them)
+                        let ambiguous = addr_of.keys().filter(|&&(_, x)| x == h).count() >= 2;
+                        if ambiguous {
+                            line.push_str(" A");
+                        } else {
+                            match first_call.get(&a) {
+                                Some(c) => line.push_str(&format!(" {c}")),
+                                None => line.push_str(" ?"),
+                            }
                         }
                         expect_hits += 1;
                         match pair_at.get(&a) {
